@@ -137,6 +137,16 @@ def failing_destructors():
     out.append("class C0 { public constructor() -> C0 { } public virtual function f() -> int { return 0; } }\n" +
                "".join("class C%d extends C%d { public constructor() -> C%d { super(); } public override function f() -> int { return %d; } }\n" % (i, i - 1, i, i) for i in range(1, 200)) +
                "function main() -> void { C0 c = new C199(); echo(c.f()); }\n")
+    # a destructor that writes the fields of its dying parent (which it reaches because the parent's destructor handed out 'this')
+    out.append("class Child { public Parent parent; public int gen; public constructor(Parent p, int gen) -> Child { this.parent = p; this.gen = gen; return this; }\n"
+               "  public destructor() -> Child { if (this.parent != null) { if (this.gen < 3) { this.parent.kid = new Child(this.parent, this.gen + 1); } } } }\n"
+               "class Parent { public Child kid; public constructor() -> Parent { this.kid = new Child(null, 0); return this; } public destructor() -> Parent { this.kid.parent = this; } }\n"
+               "function main() -> void { Parent p = new Parent(); p = null; echo(\"done\"); }\n")
+    # native stack used inside one call: releases from nested blocks of a destructor, a chain of classes initialised on demand, a deeply nested body under recursion
+    out.append("class N { public N next; public constructor() -> N { this.next = null; } public destructor() -> N { " + "{ " * 40 + "this.next = null; " + "} " * 40 + "} }\n"
+               "function main() -> void { N head = new N(); for (int i = 0; i < 300; i = i + 1) { N n = new N(); n.next = head; head = n; } head = null; echo(\"done\"); }\n")
+    out.append("".join("static class S%d { public static int x = S%d.x + 1; }\n" % (i, i + 1) for i in range(1500)) + "static class S1500 { public static int x = 1; }\nfunction main() -> void { echo(S0.x); }\n")
+    out.append("function deep(int n) -> int { " + "if (n > 0) { " * 300 + "return deep(n - 1) + " + " + ".join(["1"] * 300) + "; " + "} " * 300 + "return 0; }\nfunction main() -> void { echo(deep(100000)); }\n")
     # an error in a destructor reached from inside another destructor
     out.append("class Node { public int v; public constructor(int v) -> Node { this.v = v; }\n"
                "  public destructor() -> void { if (this.v == 0) { { Node t = new Node(1); } Node u = new Node(2); } else { int[] d = {1}; int z = d[5]; } } }\n"
